@@ -774,89 +774,64 @@ def _clone_row(res, ctx, arms):
 # ---------------------------------------------------------------------------------------------------- into_range
 
 def _into_range_row(res, ctx, arms):
-    """per Bound variant: start = i | i+1 | 0 ; end = i+1 | i | len ; the asserts are checked by R-BOUNDS at the callers"""
+    """one interpretation per pair of Bound variants (the entry facts fix both discriminants, so every match is decided and the returned Range is exact):
+    start = i | i+1 | 0 ; end = i+1 | i | len ; and the function only returns under start <= end <= len"""
+    from ..interp import implies
     p = "into_range"
-    want = {("start", "Included"): lambda i, L: i, ("start", "Excluded"): lambda i, L: i + ONE, ("start", "Unbounded"): lambda i, L: Poly(),
-            ("end", "Included"): lambda i, L: i + ONE, ("end", "Excluded"): lambda i, L: i, ("end", "Unbounded"): lambda i, L: L}
-    for tt, I in arms(p):
-        fn = ctx.fn(p)
-        L = Poly.atom(("param", 1))
-        # the locals that become the returned Range { start, end }
-        range_locals = {}
-        for node in I.g.nodes:
-            if node.inst is not I.g.entry:
-                continue
-            for s in node.data["stmts"]:
-                rv = s.get("rv", {})
-                if rv.get("k") == "agg" and rv.get("adt") == "core::ops::Range":
-                    for fname, a in zip(rv["fields"], rv["args"]):
-                        pl = a.get("copy") or a.get("move")
-                        if pl and not pl["proj"]:
-                            range_locals[pl["local"]] = fname
-        # copies: `_tmp = start` feeding the aggregate
-        changed = True
-        while changed:
-            changed = False
-            for node in I.g.nodes:
-                if node.inst is not I.g.entry:
-                    continue
-                for s in node.data["stmts"]:
-                    rv = s.get("rv", {})
-                    if "dst" in s and not s["dst"]["proj"] and s["dst"]["local"] in range_locals and rv.get("k") == "use":
-                        pl = rv["args"][0].get("copy") or rv["args"][0].get("move")
-                        if pl and not pl["proj"] and pl["local"] not in range_locals:
-                            # only plain renames of usize locals defined in several arms
-                            range_locals[pl["local"]] = range_locals[s["dst"]["local"]]
-                            changed = True
+    if not arms(p):
+        return
+    VAR = {0: "Included", 1: "Excluded", 2: "Unbounded"}
+    L = Poly.atom(("param", 1))
 
-        def variant_of(facts, which):
-            for f in facts:
-                if f[0] == "eq0":
-                    for a in f[1].atoms():
-                        if isinstance(a, tuple) and a[0] == "discr" and isinstance(a[1], tuple) and a[1][0] == "bound" \
-                                and (a[1][1] == "start_bound") == (which == "start"):
-                            k = -f[1].m.get((), 0) * f[1].m.get((a,), 1)
-                            return {0: "Included", 1: "Excluded", 2: "Unbounded"}.get(abs(k))
-            return None
-        seen = {}
-        for gid, st in sorted(I.in_state.items()):
-            node = I.g.nodes[gid]
-            if node.inst is not I.g.entry:
-                continue
-            cur = st.copy()
-            for si, s in enumerate(node.data["stmts"]):
-                if "dst" not in s:
-                    continue
-                rv = s["rv"]
-                if not s["dst"]["proj"] and s["dst"]["local"] in range_locals and rv["k"] in ("use", "bin"):
-                    which = range_locals[s["dst"]["local"]]
-                    variant = variant_of(st.facts, which)
-                    v = I.eval_rvalue(cur, node.inst, rv, node, si, s.get("line"))
-                    if isinstance(v, Poly) and variant:
-                        seen.setdefault((which, variant), []).append((v, s.get("line")))
-            tm = node.data["term"]
-            if tm["k"] == "call" and not tm["dest"]["proj"] and tm["dest"]["local"] in range_locals:
-                which = range_locals[tm["dest"]["local"]]
-                variant = variant_of(st.facts, which)
-                cu = [e for e in I.all_effects(("CHECKED_UNWRAP",)) if e.gid == gid]
-                if cu and variant:
-                    v = I.arith(cu[0]["op"], cu[0]["a"], cu[0]["b"])
-                    seen.setdefault((which, variant), []).append((v, tm.get("line")))
-        for key, fnw in sorted(want.items()):
-            row = Row(res, ctx, "into_range:%s/%s" % key, p, tt, I)
-            vals = seen.get(key)
-            if not vals:
-                row.fail("no value is computed for the %s bound in the %s case" % key)
-                row.done()
-                continue
-            # the value finally assigned in that arm: the last one
-            v, line = vals[-1]
-            ats = [a for a in v.atoms() if isinstance(a, tuple) and a[0] == "init"]
-            i = Poly.atom(ats[0]) if ats else Poly()
-            w = fnw(i, L)
-            if v != w and not (key[1] == "Unbounded" and v == w):
-                row.fail("%s bound in the %s case is %s, the Vec model requires %s" % (key[0], key[1], v, w if ats or key[1] == "Unbounded" else "i / i+1"))
+    def bound(which):
+        return ("bound", which + "_bound", (("A", 2), ()))
+
+    def payload(which, variant):
+        return Poly.atom(("init", (("D", ("fld", bound(which), ("as:" + variant, "0"))), ()), 0))
+    want = {("start", "Included"): lambda i: i, ("start", "Excluded"): lambda i: i + ONE, ("start", "Unbounded"): lambda i: Poly(),
+            ("end", "Included"): lambda i: i + ONE, ("end", "Excluded"): lambda i: i, ("end", "Unbounded"): lambda i: L}
+    seen = {}        # (which, variant) -> [(value, arm, I)]
+    guards = []
+    for sv in range(3):
+        for ev in range(3):
+            ef = [("eq0", Poly.atom(("discr", bound("start"))) - Poly.const(sv)), ("eq0", Poly.atom(("discr", bound("end"))) - Poly.const(ev))]
+            for tt, I in ctx.arms(p, entry_facts=ef) or []:
+                rets = I.all_effects(("RETURN",))
+                for r in rets:
+                    v = r["value"]
+                    if not (isinstance(v, tuple) and v and v[0] == "range"):
+                        seen.setdefault(("start", VAR[sv]), []).append((None, tt, I))
+                        seen.setdefault(("end", VAR[ev]), []).append((None, tt, I))
+                        continue
+                    seen.setdefault(("start", VAR[sv]), []).append((as_poly(v[1]), tt, I))
+                    seen.setdefault(("end", VAR[ev]), []).append((as_poly(v[2]), tt, I))
+                    guards.append((VAR[sv], VAR[ev], as_poly(v[1]), as_poly(v[2]), r["facts"], tt, I))
+    for key, fnw in sorted(want.items()):
+        vals = seen.get(key)
+        tt, I = (vals[0][1], vals[0][2]) if vals else arms(p)[0]
+        row = Row(res, ctx, "into_range:%s/%s" % key, p, tt, I)
+        if not vals:
+            row.fail("no value is computed for the %s bound in the %s case" % key)
             row.done()
+            continue
+        w = fnw(payload(*key))
+        for v, _, _ in vals:
+            if v is None or v != w:
+                row.fail("%s bound in the %s case is %s, the Vec model requires %s" % (key[0], key[1], v, w))
+                break
+        row.done()
+    # the asserts: a Range is only returned when start <= end and end <= len
+    if guards:
+        tt, I = guards[0][5], guards[0][6]
+        row = Row(res, ctx, "into_range:asserts", p, tt, I)
+        for svn, evn, sv_, ev_, facts, _, _ in guards:
+            if not implies(facts, ("ge0", ev_ - sv_)):
+                row.fail("a range with start > end is returned (%s / %s bounds): the `start <= end` check is missing" % (svn, evn), sub="order")
+                break
+            if not implies(facts, ("ge0", L - ev_)):
+                row.fail("a range with end > len is returned (%s / %s bounds): the `end <= len` check is missing" % (svn, evn), sub="len")
+                break
+        row.done()
 
 
 # ---------------------------------------------------------------------------------------------------- backend growth policy
